@@ -85,6 +85,14 @@ def embed(env, Q, inner, pos):
         return inner.union(other)
     if pos == "setop-operand":
         return other.union(inner)
+    if pos == "setop-operand-after-optout":
+        o3 = P.Table("ot3")
+        try:
+            base3 = Q.from_(o3, wrap_set_operation_queries=False)
+        except TypeError:      # (the MySQL builder passes that keyword itself: its queries never ask for the brackets)
+            base3 = Q.from_(o3)
+        optout = base3.select(*[o3.field("j%d" % i) for i in range(nsel(inner))])
+        return other.union(optout).union(inner)
     if pos == "create-as":
         return Q.create_table("nt").as_select(inner)
     raise core.MachineryError(pos)
@@ -189,7 +197,7 @@ def run(tier: str) -> int:
                 continue  # WITH legitimately precedes INSERT INTO: not an embedding of the text after a prefix
             if h["clause"].startswith("dml-") and d != "postgresql":
                 continue  # RETURNING is PostgreSQL's
-            if h["clause"].startswith("setop-") and h["pos"] in ("insert-select", "insert-select-upsert", "setop-base", "setop-operand", "create-as"):
+            if h["clause"].startswith("setop-") and h["pos"] in ("insert-select", "insert-select-upsert", "setop-base", "setop-operand", "setop-operand-after-optout", "create-as"):
                 continue  # (a set operation is embedded as a subquery; chaining set operations is not an embedding, as_select() takes a builder only)
             try:
                 ev = observe(Q, d, h)
